@@ -55,7 +55,7 @@ contract("CountMinSketch.add_alt", contexts=["CountMinSketch"], properties=["C02
              ("vals_done", "all(vals[j] == self._bins[bins[j]] for j in range(0, _i))"),
              ("vals_todo", "all(vals[j] == old(self._bins[bins[j]]) + num_els for j in range(_i, cd(self)))")]}})
 
-contract("CountMinSketch.remove_alt", contexts=["CountMinSketch"], properties=["C02", "C16", "C14"],
+contract("CountMinSketch.remove_alt", contexts=["CountMinSketch"], properties=["C02", "C16", "C14", "C06"],
          params={"hashes": "list[int]", "num_els": "int"}, returns="int",
          requires=_HREQ + [("positive_amount", "num_els >= 1"),
                            ("mean_min_needs_width_2", "is_min_mode(self) or cw(self) >= 2")],
@@ -244,6 +244,19 @@ contract("HeavyHitters.add_alt", contexts=["HeavyHitters"], properties=["C17"],
 
 THR = "self._StreamThreshold__threshold"
 MT = "self._StreamThreshold__meets_threshold"
+
+# clear() (C19): the base body reached through super().clear(), then the tables of the subclasses
+for _r in ("HeavyHitters", "StreamThreshold"):
+    clone_contract("CountMinSketch.clear", f"CountMinSketch.clear@{_r}", contexts=[_r], properties=["C19"])
+_CLEARED = [("total_zero", "ctotal(self) == 0"),
+            ("cells_zero", "all(self._bins[x] == 0 for x in range(0, cw(self) * cd(self)))"), ("inv", "inv_cms(self)")]
+contract("HeavyHitters.clear", contexts=["HeavyHitters"], properties=["C19", "C17"],
+         requires=["inv_cms(self)"], modifies=["self._bins", "self._CountMinSketch__elements_added", TOP, SZ, SM],
+         ensures=_CLEARED + [("table_as_after_construction",
+                              f"len({TOP}) == 0 and {SZ} == 0 and {SM} == 0 and all(not (k in {TOP}) for k in allkeys({TOP}))")])
+contract("StreamThreshold.clear", contexts=["StreamThreshold"], properties=["C19", "C17"],
+         requires=["inv_cms(self)"], modifies=["self._bins", "self._CountMinSketch__elements_added", MT],
+         ensures=_CLEARED + [("table_as_after_construction", f"len({MT}) == 0 and all(not (k in {MT}) for k in allkeys({MT}))")])
 contract("StreamThreshold.__init__", contexts=["StreamThreshold"], properties=["C17"],
          params=dict(_INIT_PARAMS, threshold="int"), requires=_INIT_REQ, raises=_INIT_RAISES_CMS, modifies=["self"],
          ensures=_INIT_ENS + [("min_mode", "is_min_mode(self)"), ("inv", "inv_cms(self)"),
